@@ -32,7 +32,14 @@ def candidates(path, generated):
             if re.search(r'[<>=!]=?|&&|\|\||\+\+|\b\d+\b', s) and not s.startswith('func ') and 'Errorf' not in s:
                 c.append(i)
     return lines, c
-def mutate_line(ln, generated):
+def mutate_line(full, generated):
+    # only the code part of the line is mutated
+    ci = full.find('//')
+    ln, tail = (full, '') if ci < 0 else (full[:ci], full[ci:])
+    r = mutate_code(ln, generated)
+    return None if r is None else r + tail
+
+def mutate_code(ln, generated):
     opts = []
     if generated:
         for m in re.finditer(r'\b\d+\b', ln):
@@ -71,7 +78,7 @@ for files, n, g in ((hand, nh, False), (gen, ng, True)):
             continue
         muts.append({'file': f, 'line': i + 1, 'old': lines[i].strip(), 'new': nl.strip(), 'newline': nl, 'gen': g})
 os.makedirs(out, exist_ok=True)
-props = subprocess.run(['/verif/bin/rjverif', 'list'], capture_output=True, text=True).stdout.split('\n')
+props = subprocess.run(['/verif/bin/rjverif', 'list'], capture_output=True, text=True, errors='replace').stdout.split('\n')
 props = [p.split()[0] for p in props if p.strip()]
 def run(k):
     m = muts[k]
@@ -84,17 +91,17 @@ def run(k):
     open(p, 'w').write('\n'.join(lines))
     res = dict(m); res.pop('newline')
     try:
-        b = subprocess.run(['go', 'build', './...'], cwd=d, env=ENV, capture_output=True, text=True, timeout=300)
+        b = subprocess.run(['go', 'build', './...'], cwd=d, env=ENV, capture_output=True, text=True, errors='replace', timeout=300)
         if b.returncode != 0:
             res['status'] = 'nobuild'; return res
-        t = subprocess.run(['go', 'test', '-vet=off', '-count=1', './...'], cwd=d, env=ENV, capture_output=True, text=True, timeout=900)
+        t = subprocess.run(['go', 'test', '-vet=off', '-count=1', './...'], cwd=d, env=ENV, capture_output=True, text=True, errors='replace', timeout=900)
         if t.returncode != 0:
             res['status'] = 'killed-by-tests'; return res
         res['status'] = 'survivor'
         det = []
         for pid in props:
             e = dict(ENV, VERIF_REPO=d, VERIF_DIR=d + '/_out')
-            c = subprocess.run(['/verif/bin/rjverif', 'check', pid], env=e, capture_output=True, text=True, timeout=900)
+            c = subprocess.run(['/verif/bin/rjverif', 'check', pid], env=e, capture_output=True, text=True, errors='replace', timeout=900)
             if 'OK property=' not in c.stdout:
                 det.append(pid)
         res['detected_by'] = det
